@@ -101,12 +101,14 @@ RRSendRet ==
           ELSE NoFlag)
       ELSE IF stype = "REQ" /\ owed THEN
          (IF wires # <<>> THEN Flag("C08/refused-call-wrote-bytes") ELSE IF Returned # m THEN Flag("C08/refused-call-lost-message") ELSE NoFlag)
+      \* a message without frames cannot be put on the wire: refusing it is right, provided nothing was written
+      ELSE IF Len(m) = 0 THEN (IF wires # <<>> \/ ~NoPartials THEN Flag("C10/refused-send-wrote-bytes") ELSE NoFlag)
       ELSE IF gone = {} /\ DOMAIN cut = {} THEN Flag("C10/send-failed-with-healthy-peers")
       \* "not connected to peers" although a peer whose connection is fine is registered
       ELSE IF Alive # {} /\ Returned # <<"absent">> /\ Fld(E, "err", "") = "ReturnToSender:Not connected to peers. Unable to send messages"
            THEN Flag("C10/no-peer-error-with-connected-peers")
       ELSE NoFlag) /\ hits' = <<>> /\ UNCHANGED <<gone, joined, jwait, owed>>
-  ELSE UNCHANGED svars /\ Flag("C03/panic")
+  ELSE UNCHANGED svars /\ Flag("C10/send-panicked")      \* neither a success nor a failure
 
 TSendRet == Step("send_ret") /\ UNCHANGED <<avars, scen, orphans>> /\ call' = <<>> /\ wires' = <<>> /\
    IF dead \/ call = <<>> THEN UNCHANGED svars /\ NoFlag
@@ -128,7 +130,8 @@ TRecvRet == Step("recv_ret") /\ UNCHANGED <<scen, call, wires, hits, gone, joine
       ELSE UNCHANGED avars /\ Flag("C09/recv-label-not-sender")
    ELSE IF stype = "REQ" THEN UNCHANGED avars /\ owed' = FALSE /\ NoFlag
    ELSE UNCHANGED <<avars, owed>> /\ NoFlag
-TPanic == Step("panic") /\ UNCHANGED <<avars, scen, call, wires, svars, orphans>> /\ Flag("C03/panic")
+\* a send that panics is neither a success nor a failure that hands the message back
+TPanic == Step("panic") /\ UNCHANGED <<avars, scen, call, wires, svars, orphans>> /\ Flag(IF call # <<>> /\ stype # "ROUTER" THEN "C10/send-panicked" ELSE "C03/panic")
 THarness == Step("harness_error") /\ UNCHANGED <<avars, scen, call, wires, svars, orphans>> /\ Flag("harness/script-error")
 Ignored == {"observed", "peer_part", "peer_bytes", "attach_call", "attach_pending", "released", "recv_call", "recv_pending", "recv_dropped", "send_pending",
             "quiescent", "end", "expect_wire", "sub_call", "sub_ret"}
